@@ -7,7 +7,6 @@ use crate::protocol::RespFrame;
 use crate::storage::StorageEngine;
 use crate::storage::stream::StreamId;
 use std::sync::Arc;
-use std::collections::HashMap;
 
 /// Handle XADD command - Add entries to a stream
 pub fn handle_xadd(storage: &Arc<StorageEngine>, db: usize, parts: &[RespFrame]) -> Result<RespFrame> {
@@ -29,7 +28,8 @@ pub fn handle_xadd(storage: &Arc<StorageEngine>, db: usize, parts: &[RespFrame])
     
     // Parse field-value pairs with pre-allocated capacity
     let num_fields = (parts.len() - 3) / 2;
-    let mut fields = HashMap::with_capacity(num_fields);
+    // a list of pairs, in the order given; a repeated field name is another pair
+    let mut fields = Vec::with_capacity(num_fields);
     for i in (3..parts.len()).step_by(2) {
         let field = match &parts[i] {
             RespFrame::BulkString(Some(bytes)) => bytes.as_ref().clone(),
@@ -41,7 +41,7 @@ pub fn handle_xadd(storage: &Arc<StorageEngine>, db: usize, parts: &[RespFrame])
             _ => return Ok(RespFrame::error("ERR invalid value format")),
         };
         
-        fields.insert(field, value);
+        fields.push((field, value));
     }
     
     // Add to stream
